@@ -54,7 +54,7 @@ PROPS = {
     },
     "C07": {
         "level": "proof",
-        "lean_modules": ["ApdVerif.Props.C07", "ApdVerif.Props.GenTieRound", "ApdVerif.Props.GenTieMisc", "ApdVerif.Props.TransLog"],
+        "lean_modules": ["ApdVerif.Props.C07", "ApdVerif.Props.GenTieRound", "ApdVerif.Props.GenTieMisc", "ApdVerif.Props.TransLog", "ApdVerif.Props.C07Roots"],
         "theorem_prefixes": ["C07_", "GenTie_", "C07T_"],
         "streams": [
             {"stream": "arith", "ops": ["add", "sub", "mul", "quo", "abs", "neg", "round", "rem", "reduce", "quantize", "quoint"],
@@ -133,7 +133,7 @@ COMPOSITE_NOTE = "Exp/Ln/Log10/Pow: only the special-value prologues are modelle
 PROPS.update({
     "C03": {
         "level": "proof",
-        "lean_modules": ["ApdVerif.Props.C03", "ApdVerif.Props.GenTieCond", "ApdVerif.Props.TransLog"],
+        "lean_modules": ["ApdVerif.Props.C03", "ApdVerif.Props.GenTieCond", "ApdVerif.Props.TransLog", "ApdVerif.Props.C07Roots"],
         "theorem_prefixes": ["C03_", "GenTie_", "C03T_"],
         "streams": [{"stream": "traps", "n": {"quick": 30000, "thorough": 500000}},
                     {"stream": "errdec", "n": {"quick": 15000, "thorough": 200000}}],
@@ -158,7 +158,9 @@ PROPS.update({
     "C11": {
         "level": "other",
         "lean_modules": ["ApdVerif.Props.C11", "ApdVerif.Props.C11Settle", "ApdVerif.Props.C11Sqrt"],
-        "streams": [{"stream": "roots", "n": {"quick": 20000, "thorough": 400000}}],
+        "streams": [{"stream": "roots", "n": {"quick": 20000, "thorough": 400000}},
+                    # the same oracles judge every aliased outcome (d == x, heap-backed operands, junk destinations)
+                    {"stream": "alias", "ops": ["sqrt", "cbrt"], "n": {"quick": 3000, "thorough": 40000}, "projections": []}],
         "projections": ["value", "repr", "flags", "err", "iter"],
         "oracle_tags": ["C11"],
         "explanation": "Sqrt: correctness theorem for every operand (C11_sqrt_correct_partial: Newton error analysis over the reals + model loop + settling step + roundings = specSqrt; side condition workp+6 <= 100000+e/2 proved necessary by C11_sqrt_sys). Also proved: integer-root oracles, specSqrt is the half-even nearest multiple of the quantum stated on squares, the Cbrt ulp test, perfect-cube detection, loop termination, special operands. NOT proved: no Inexact on exactly representable roots; Cbrt one-ulp accuracy. The executable models of Sqrt and Cbrt are correspondence-checked and every generated case is judged by the proved oracles; generators aim at roots next to rounding boundaries",
